@@ -324,8 +324,12 @@ done:
    * Also, just because the query itself returned success from /etc/hosts
    * lookup doesn't mean it returned everything it needed to for all requested
    * address families. As long as we're not on a critical out of memory
-   * condition pass it through to fill in any other address classes. */
-  if (status != ARES_ENOMEM && ares_is_localhost(name)) {
+   * condition pass it through to fill in any other address classes.
+   *
+   * A hostent holds a single address family, so when the hosts file already
+   * supplied addresses there is nothing left to fill in; appending the
+   * default loopback address then would list it twice. */
+  if (status != ARES_ENOMEM && *host == NULL && ares_is_localhost(name)) {
     return ares_hostent_localhost(name, family, host);
   }
 
